@@ -127,6 +127,9 @@ Inductive op :=
 | OStopFlaky (sh : Z)                       (* the same while the store's first flush fails (API outage):
                                                stopLimitStoreWithRetry retries, the store is dropped at once *)
 | OLeaderCheck                              (* rateLimiter.leaderCheck *)
+| OLeaderCheckRace (sh : Z)                 (* leaderCheck whose GetLeaders() snapshot is taken just before the
+                                               lease of sh is lost (record deleted, OnStoppedLeading runs), and
+                                               which then continues on the stale snapshot *)
 | OClusterSet (u : string)                  (* informer add/update + UpstreamConditionHandler *)
 | OClusterDel (u : string)                  (* informer delete + UpstreamConditionHandler *)
 | OUpdate (u i : string)                    (* UpdateRateLimitConditionStatus *)
@@ -145,6 +148,22 @@ Definition leader_check (s : st) : st :=
                           | Some l => String.eqb l (me acc) | None => false end in
                if led then acc else lim_stop acc (fst p)) (stores s1) s1.
 
+(* leaderCheck continuing on a snapshot [snap] of the leader records *)
+Definition lc1m (acc : st) (p : Z * string) : st :=
+  if String.eqb (snd p) (me acc) then
+    match zlookup (fst p) (stores acc) with
+    | None => lim_start acc (fst p)
+    | Some _ => acc
+    end
+  else acc.
+Definition lc2m (snap : list (Z * string)) (acc : st) (p : Z * store) : st :=
+  let led := match zlookup (fst p) snap with
+             | Some l => String.eqb l (me acc) | None => false end in
+  if led then acc else lim_stop acc (fst p).
+Definition leader_check_snap (snap : list (Z * string)) (s : st) : st :=
+  let s1 := fold_left lc1m snap s in
+  fold_left (lc2m snap) (stores s1) s1.
+
 Definition step (s : st) (o : op) : st * res :=
   match o with
   | ONewLeader sh id => (set_leaders s (zset sh id (leaders s)), RNil)
@@ -153,6 +172,10 @@ Definition step (s : st) (o : op) : st * res :=
       let s1 := if is_leader s sh then set_leaders s (zdel sh (leaders s)) else s in
       (lim_stop s1 sh, RNil)
   | OLeaderCheck => (leader_check s, RNil)
+  | OLeaderCheckRace sh =>
+      let snap := leaders s in
+      let s0 := lim_stop (if is_leader s sh then set_leaders s (zdel sh (leaders s)) else s) sh in
+      (leader_check_snap snap s0, RNil)
   | OClusterSet u =>
       handler (set_lister s (if str_mem u (lister s) then lister s else lister s ++ [u])) u
   | OClusterDel u =>
